@@ -113,6 +113,11 @@ def run(ctx):
             odd = min(groups.items(), key=lambda kv: len(kv[1]))
             rest = max(groups.items(), key=lambda kv: len(kv[1]))
             f = facts[odd[1][0]].get(k)
+            foreign = HF._foreign_atoms(str(odd[0]), str(rest[0])) + HF._foreign_atoms(str(rest[0]), str(odd[0]))
+            if foreign:
+                # one side mentions an attribute the extractor could not reduce to its definition: texts cannot be compared
+                ctx.undecided("C10.2", f.fn, "%s computes %s as `%s`, %s as `%s`; %s could not be reduced to a common form" % (", ".join(odd[1]), k, odd[0], ", ".join(rest[1]), rest[0], ", ".join(foreign)), label)
+                continue
             ctx.violated("C10.2", f.fn, "%s computes %s as `%s` while %s compute `%s`: the same file gets different roots / layers / pieces depending on which code path hashes it" % (
                 ", ".join(odd[1]), k, odd[0], ", ".join(rest[1]), rest[0]), label)
     pair = {}
